@@ -1214,13 +1214,17 @@ def gen_readonly_cases(ctx, n_files):
     for i in range(n_files):
         seed = "%d-%d" % (ctx.seed, ctx.rng.getrandbits(32))
         path = ctx.tmpfile("rich-%s.nix" % seed)
-        info["built"] = build_rich(path, seed)
         nixio = _nix()
-        f = nixio.File.open(path, nixio.FileMode.ReadOnly)
         try:
-            objs = collect(f)
-        finally:
-            f.close()
+            info["built"] = build_rich(path, seed)
+            f = nixio.File.open(path, nixio.FileMode.ReadOnly)
+            try:
+                objs = collect(f)
+            finally:
+                f.close()
+        except Exception as e:     # the implementation cannot create / reopen its own file: reported, not fatal
+            info.setdefault("errors", []).append("%s: %s" % (type(e).__name__, str(e)[:200]))
+            continue
         calls, status = discover_mutating_calls(ctx, path, objs, per_member=1 if ctx.quick() else 2)
         for k, v in status.items():
             if info["members"].get(k) != "mutating":
@@ -1264,6 +1268,10 @@ def correspondence(ctx):
         dist["readonly.session"] = dist.get("readonly.session", 0) + 1
     model = core.run_driver(PROP, all_cases)
     disagreements = []
+    for e in ro_info.get("errors", []):
+        disagreements.append(Disagreement(["hist", None, [["open", "w", VALID_ID], "<populate>", ["close"],
+                                                           ["open", "r", VALID_ID]]],
+                                          "a file is created, populated and reopened read-only", e))
     seen = set()
     outcomes = {}
     for k, (c, m) in enumerate(zip(all_cases, model)):
@@ -1484,9 +1492,14 @@ def check_ro_session(ctx, case):
     nixio = _nix()
     seed = case[1]
     path = ctx.tmpfile("ros-%d.nix" % ctx.rng.getrandbits(48))
-    build_rich(path, seed)
     failures = []
     stats = {"calls": 0, "reads": 0}
+    try:
+        build_rich(path, seed)
+    except Exception as e:
+        return [Failure("a new file cannot be created and populated in overwrite mode", ["missing", "w"],
+                        "%s: %s" % (type(e).__name__, str(e)[:120]), "an empty writable file with a fresh header",
+                        "nixio/file.py:File.__init__")], stats, {}
     before = sha_file(path)
     f = nixio.File.open(path, nixio.FileMode.ReadOnly)
     try:
@@ -1599,7 +1612,7 @@ def _hint_cases(h):
             disk, evs = h[1], h[2]
             modes = [e[1] for e in evs if isinstance(e, list) and e and e[0] == "open"]
             if disk is None:
-                out += [["missing", m] for m in modes]
+                out += [["missing", m] for m in modes if m in ("r", "a", "w")]
             elif isinstance(disk["header"]["version"], list) and len(disk["header"]["version"]) == 3:
                 for m in modes:
                     if m in ("r", "a", "w"):
